@@ -886,10 +886,10 @@ def check_C19(ctx):
             relation_violation(ctx, 'C19_no_leak', {'history': l, 'implementation_last': toks[-1], 'explanation': 'allocations live after eav_free (an IDN output buffer or a result record leaked)'})
     # ASan/LSan build over the same runs: leaks and double frees inside the library
     ls = ctx.snap.lib(san=True)
-    sub = lines[:600] + runs[:150]
-    c_s, m_s = vlib.run_both(ls, ctx.snap, sub)
-    ctx.rep.add_cases('asan+ubsan build', sub, c_s, lambda ln, o: True, note='same cases on a -fsanitize=address,undefined build (double free / use after free / leak at exit)')
-    for l, a, b in [(l, a, b) for l, a, b in zip(sub, c_s, m_s) if a != b][:3]:
+    ssub = lines[:600] + runs[:150]
+    c_s, m_s = vlib.run_both(ls, ctx.snap, ssub)
+    ctx.rep.add_cases('asan+ubsan build', ssub, c_s, lambda ln, o: True, note='same cases on a -fsanitize=address,undefined build (double free / use after free / leak at exit)')
+    for l, a, b in [(l, a, b) for l, a, b in zip(ssub, c_s, m_s) if a != b][:3]:
         ctx.rep.violation({'kind': 'correspondence', 'correspondence': 'corr:C19/asan', 'case': l, 'implementation(asan build)': a, 'model': b})
     return finish(ctx, rule='fault injection: idn2_to_ascii_8z is interposed (-Wl,--wrap) and returns the code / buffer given in the case line; E, U cases single calls, A cases runs of 1-50 '
                   'validations with faults at chosen positions; allocation counters via --wrap=malloc/free/strndup; non-trivial = an IDN failure was recorded',
@@ -1416,8 +1416,13 @@ def check_C06(ctx):
     desc = lambda ln, a, b: 'memory-safety run: the implementation crashed / was stopped by a sanitizer or a guard page, or answered differently from the model: %s vs %s' % (a, b)
     # (a) ASan + UBSan + LSan, every input in an exact-size heap block
     ls = ctx.snap.lib(san=True)
-    def crashed(ln, a, b): return 'CRASH' in a or 'ABORT' in b or 'FAULT' in b
-    for name, lib, env, lines in (('asan+ubsan(tight heap blocks)', ls, {'DRV_PLACE': 'tight'}, cases), ('asan+ubsan(histories)', ls, {}, H)):
+    def leaked(ln, a):      # E / U lines end with the number of allocations still live after eav_result_free; A lines with the count after the last operation (eav_free)
+        f = a.split(' ')
+        return ln[0] in 'EU' and len(f) >= 5 and f[-1].lstrip('-').isdigit() and f[-1] != '0'
+    def crashed(ln, a, b): return 'CRASH' in a or 'ABORT' in b or 'FAULT' in b or leaked(ln, a)
+    lsx = ctx.snap.lib(san=True, extra=True)     # -DEAV_EXTRA: lpart / domain copies, released by eav_result_free
+    for name, lib, env, lines in (('asan+ubsan(tight heap blocks)', ls, {'DRV_PLACE': 'tight'}, cases), ('asan+ubsan(histories)', ls, {}, H),
+                                  ('asan+ubsan(EAV_EXTRA build)', lsx, {'DRV_PLACE': 'tight'}, sub(ctx, E, 2))):
         c_out, m_out = vlib.run_both(lib, ctx.snap, lines, env=env)
         ctx.rep.add_cases(name, lines, c_out, lambda ln, o: True, note='gcc -fsanitize=address,undefined -fno-sanitize-recover=all; leaks checked at exit')
         bad = [(l, a, b) for l, a, b in zip(lines, c_out, m_out) if a != b]
@@ -1433,10 +1438,10 @@ def check_C06(ctx):
             ctx.rep.violation({'kind': 'memory-safety', 'run': 'guard-pages(%s)' % pm, 'case': l[:600], 'implementation': a[:300], 'model': b[:200],
                                'explanation': 'a byte outside [first byte, terminator] was read (SIGSEGV on the guard page)' if crashed(l, a, b) else desc(l, a, b)}, found_input=crashed(l, a, b))
     # (c) valgrind memcheck: eav_t on uninitialised heap memory, uninitialised reads are errors
-    sub = H[:120 if not ctx.thorough() else 1500] + E[:300]
-    c_out, m_out = vlib.run_both(ld, ctx.snap, sub, shards=8, env={'DRV_NOPOISON': '1', 'DRV_LINEBUF': '1'}, wrapper=['valgrind', '-q', '--error-exitcode=99', '--exit-on-first-error=yes', '--track-origins=no'])
-    ctx.rep.add_cases('valgrind(uninitialised eav_t)', sub, c_out, lambda ln, o: True, note='eav_t malloc()ed and left uninitialised before eav_init; memcheck')
-    bad = [(l, a, b) for l, a, b in zip(sub, c_out, m_out) if a != b]
+    vsub = H[:120 if not ctx.thorough() else 1500] + E[:300]
+    c_out, m_out = vlib.run_both(ld, ctx.snap, vsub, shards=8, env={'DRV_NOPOISON': '1', 'DRV_LINEBUF': '1'}, wrapper=['valgrind', '-q', '--error-exitcode=99', '--exit-on-first-error=yes', '--track-origins=no'])
+    ctx.rep.add_cases('valgrind(uninitialised eav_t)', vsub, c_out, lambda ln, o: True, note='eav_t malloc()ed and left uninitialised before eav_init; memcheck')
+    bad = [(l, a, b) for l, a, b in zip(vsub, c_out, m_out) if a != b]
     for l, a, b in bad[:2]:
         ctx.rep.violation({'kind': 'memory-safety', 'run': 'valgrind', 'case': l[:600], 'implementation': a[:600], 'model': b[:200],
                            'explanation': 'valgrind memcheck stopped the run (uninitialised read / invalid access) or the outcome differs from the model'}, found_input='CRASH' in a)
